@@ -120,6 +120,7 @@ func runC18(c *runCtx) {
 	}
 	// heavy headers: GNU-format members whose name and link target are long runs of non-ASCII bytes, so that the byte
 	// sum of the first block needs all six octal digits of the checksum field (0100000 and more)
+	var heavy [][]byte
 	for i := 0; i < 24; i++ {
 		var buf bytes.Buffer
 		w := tar.NewWriter(&buf)
@@ -134,7 +135,7 @@ func runC18(c *runCtx) {
 		w.Close()
 		a := append([]byte{}, buf.Bytes()...)
 		if len(a) >= 512 {
-			archives = append([][]byte{a}, archives...) // also first in line for the corruption sweep
+			heavy = append(heavy, a)
 			c.c18Case("writer", a)
 		}
 	}
@@ -164,6 +165,26 @@ func runC18(c *runCtx) {
 			c.c18Case("writer", a)
 		}
 	}
+	// the checksum field in the other layouts conforming writers use (archive/tar and GNU tar write six digits, NUL,
+	// space): seven digits + NUL (Solaris tar, pax, star), six digits + space + NUL, six digits + NUL + NUL, leading
+	// spaces instead of leading zeros.  The recorded value is the same, the header stays a tar header.
+	for ai, a := range archives {
+		if ai >= 40 || len(a) < 512 {
+			break
+		}
+		var v int
+		if _, err := fmt.Sscanf(strings.TrimRight(string(a[148:154]), " \x00"), "%o", &v); err != nil {
+			continue
+		}
+		for _, lay := range []string{fmt.Sprintf("%07o\x00", v), fmt.Sprintf("%06o \x00", v), fmt.Sprintf("%06o\x00\x00", v), fmt.Sprintf("%6o\x00 ", v), fmt.Sprintf("%7o ", v), fmt.Sprintf("%07o ", v)} {
+			if len(lay) != 8 {
+				continue
+			}
+			y := append([]byte{}, a...)
+			copy(y[148:156], lay)
+			c.c18Case("layout", y)
+		}
+	}
 	// single-byte corruptions of the first block outside the checksum field
 	nvals := 6
 	nh := 12
@@ -171,9 +192,12 @@ func runC18(c *runCtx) {
 		nvals = 255
 		nh = 24
 	}
-	for ai, a := range archives {
-		if ai >= nh || len(a) < 512 {
-			break
+	// the sweep covers ordinary headers and heavy ones (for those the signed and the unsigned sum differ widely)
+	sweep := append([][]byte{}, archives[:min(len(archives), nh)]...)
+	sweep = append(sweep, heavy[:min(len(heavy), nh/3)]...)
+	for _, a := range sweep {
+		if len(a) < 512 {
+			continue
 		}
 		for p := 0; p < 512; p++ {
 			if p >= 148 && p < 156 {
